@@ -16,7 +16,12 @@ magnitudes, solver as a parameter, scaling back, residual); the dispatch table r
      runs the modelled steps exactly on the (qr, tau) LAPACK returns, solves the normal equations / the KKT
      system exactly, and evaluates the optimality certificates of the implementation's *float outputs* in
      exact arithmetic; tolerances are fixed multiples of machine epsilon (below);
-  D  dispatch: table, EstimationProvider, optimize().
+  D  dispatch: table, EstimationProvider, optimize();
+  G  translator: the statements of both kernels are regenerated from their source text on every run
+     (harness/props/_c01_steps.py -> lean/GlotaranModel/Generated/C01Steps.lean); the interpreter of that table
+     (lean/GlotaranModel/C01Steps.lean) is proved equal to the hand-written model (generated_*_eq_model) and is also run by the
+     driver (`gen-vp`, `gen-nnls-on`, `gen-nnls`) next to the hand model and the real kernels;
+  P  provider glue (harness/props/_c01_provider.py): weights, index-dependent matrices, constraint reduction, labels, default key.
 Oracle (independent of the model, numpy long double): residual == data - matrix @ clp, orthogonality / KKT,
 and a competitor search (SVD least squares, all 2^n support solutions, coordinate and random perturbations).
 """
@@ -34,6 +39,7 @@ from types import SimpleNamespace
 import numpy as np
 
 from harness import core
+from harness.props import _c01_steps
 
 PROP = "C01"
 REQUIRED_THEOREMS = [
@@ -46,15 +52,30 @@ REQUIRED_THEOREMS = [
     "cert_near_optimal", "cert_defect_zero_iff",
     "dispatch_table", "dispatch_table_modelled", "dispatch_unsupported", "dispatched_kernel_optimal",
     "full_rank_of_qr", "normal_solution_unique", "kkt_point_unique", "vp_factorisation_independent", "vp_eq_lsExact",
+    # --- provider glue (goal 3)
+    "retrieve_length", "retrieve_kept", "retrieve_removed", "retrieve_unconstrained", "reduce_labels", "reduce_labels_columns",
+    "estimate_optimal", "default_key_dispatch",
+    # --- end provider glue
     "trtrs_singular",
+    "generated_vp_eq_model", "generated_nnls_eq_model", "generated_vp_optimal", "generated_nnls_optimal_partial",
+    "isQRof_is_compact_qr", "householder_step_spec", "exists_compact_qr", "diagNonzero_iff_full_rank", "exists_admissible_qr",
+    "no_admissible_qr_of_rank_deficient", "vp_optimal_of_compact_qr", "vp_optimal_real",
+    "exists_admissible_qr_of_fullRank", "vp_real_eq_lsExact",
 ]
 TRUSTED = [
     "hand-written model lean/GlotaranModel/C01.lean (+LinAlg.lean) of variable_projection.py, nnls.py and the dispatch in "
     "estimation_provider.py, tied to the code by differential execution only",
+    # --- provider glue (goal 3)
+    "hand-written model lean/GlotaranModel/C01Provider.lean of the per-index glue (apply_constraints column reduction, apply_weight, "
+    "`data *= weight`, retrieve_clps without relations, default residual_function), tied to the code by differential execution of "
+    "optimize() on one-dataset schemes; the harness' own reading of zero/only constraint intervals (closed intervals, only = complement)",
     "LAPACK dgeqrf/dormqr/dtrtrs and scipy.optimize.nnls are parameters of the model: the theorems assume an exact "
     "Householder factorisation / a KKT point; their floating-point behaviour is observed on samples (regime R), not proved",
     "numpy long double (80-bit) arithmetic and numpy.linalg.svd/lstsq in the oracle; CPython fractions in the tolerance tests",
     "the extractor of SUPPORTED_RESIUDAL_FUNCTIONS (ast + live introspection, cross-checked against each other)",
+    "the translator of the kernels' statements (harness/props/_c01_steps.py, pure ast on the source text; names resolved through the "
+    "modules' imports) and the interpreter's reading of numpy broadcasting and of LAPACK's argument conventions "
+    "(lean/GlotaranModel/C01Steps.lean) - cross-checked on every run by executing the regenerated programs against the real kernels",
 ]
 ASSUMPTIONS = [
     "theorems are over exact arithmetic (ℚ for the executable definitions, any ordered field for the abstract ones); "
@@ -64,10 +85,17 @@ ASSUMPTIONS = [
     "for all j and |.| <= the same on the support (scipy's own absolute test is 10 max(m,n) eps in normalised units); "
     "model vs implementation: |r_impl-r_model| and |A(c_impl-c_model)| <= 8(m+n+10)eps(|y|+|A||c|) on LAPACK's own (qr,tau), "
     "|A(c_impl-c_exact)| <= 8(m+n+10)eps(|y|+|A||c|+cond|r_exact|) against the exact normal-equation solution, "
+    # --- provider glue (goal 3)
+    "provider glue: one dataset per group, no clp relations, no dataset scale; weights are powers of two and matrices / data small dyadic "
+    "numbers, so the weighted reduced problem is formed exactly; `weighted_residual` is the residual that enters the fit",
     "<= 64(m+n+10)eps cond (|y|+|A||c|) for NNLS (scipy solves the normal equations of the support)",
     "the property quantifies over full column rank; rank-deficient inputs are generated only to record what happens "
     "(dtrtrs info is ignored by the code) and never decide a verdict",
     "optimize(): max_nfev = 1 and a parameter that scales all columns alike, so the reported matrix is the generated one",
+    "generated_vp_eq_model assumes that dgeqrf returns an array with as many columns as its argument (implied by isQRof); the "
+    "existence theorems (exists_compact_qr, exists_admissible_qr, vp_optimal_real, vp_real_eq_lsExact) are over exact real arithmetic: "
+    "they show that the hypotheses of vp_optimal are satisfiable for every full-rank input and what an exact LAPACK returns, not how "
+    "the floating-point LAPACK rounds",
 ]
 RULE = (
     "instances (A, y, layout): families gauss / small-integer / prescribed singular values (cond 1..1e10) / sums of nearly "
@@ -78,12 +106,21 @@ RULE = (
     "both real kernels, the long-double oracle, the exact model on LAPACK's (qr,tau), exact certificates of the float "
     "outputs, exact normal-equation / KKT references (sizes permitting). Dispatch: every key of the regenerated table, the "
     "default, misspelt keys, through EstimationProvider and through optimize() on one-dataset schemes with 1-3 global "
-    "indices. non-trivial = n >= 1 and y != 0; distinct = distinct (A, y, layout, kernel)"
+    "indices. non-trivial = n >= 1 and y != 0; distinct = distinct (A, y, layout, kernel). "
+    # --- provider glue (goal 3)
+    "Provider glue: one-dataset specs (6 fixed + seeded) cycling over key in {unset, variable_projection, non_negative_least_squares} x "
+    "link_clp in {False, True, None} x weighted (powers of two varying over both axes) x index-dependent matrix x constraints in {none, zero, "
+    "zero on the first label, zero with interval, only, two interval constraints}; 2-4 labels, 2-4 global indices; data = combination with a "
+    "negative and pairwise distinct coefficients + dyadic noise; per global index: clp by label, weighted_residual, residual against the "
+    "long-double oracle of the reduced weighted problem and against the model's estimateAt; distinct = distinct spec"
 )
 
 EPS = 2.0 ** -52
 LD = np.longdouble
 LEAN_GEN = core.LEAN / "GlotaranModel" / "Generated" / "C01.lean"
+LEAN_GEN_STEPS = core.LEAN / "GlotaranModel" / "Generated" / "C01Steps.lean"
+STEP_SOURCES = [("vpProgram", "glotaran/optimization/variable_projection.py", "residual_variable_projection"),
+                ("nnlsProgram", "glotaran/optimization/nnls.py", "residual_nnls")]
 KERNELS = ("vp", "nnls")
 KEY_OF = {"vp": "variable_projection", "nnls": "non_negative_least_squares"}
 
@@ -177,9 +214,49 @@ def generate(ck):
         LEAN_GEN.parent.mkdir(parents=True, exist_ok=True)
         LEAN_GEN.write_text(text)
     ck.extra["dispatch_table"] = {"ast": table, "live": live, "ast_vs_live_mismatch": bool(mismatch), "default": default}
-    return [{"table": "Consts(C01): SUPPORTED_RESIUDAL_FUNCTIONS key -> (module, function), DatasetGroupModel.residual_function default",
+    return [generate_steps(ck), {"table": "Consts(C01): SUPPORTED_RESIUDAL_FUNCTIONS key -> (module, function), DatasetGroupModel.residual_function default",
              "source": "glotaran/optimization/estimation_provider.py, glotaran/model/dataset_group.py",
              "sha1": hashlib.sha1(text.encode()).hexdigest()}]
+
+
+def steps_text(repo=None):
+    """Lean source of Generated/C01Steps.lean: the two kernels' statements translated from the source TEXT of the repo's
+    working tree (harness/props/_c01_steps.py; nothing is executed).  Never raises: what cannot be read or translated becomes an
+    `untranslatable` node, which makes `generated_*_eq_model` fail to build."""
+    import os
+    from pathlib import Path
+    repo = Path(repo or os.environ.get("VERIF_REPO", "/repo"))
+    defs, untranslatable = [], []
+    for name, rel, fn in STEP_SOURCES:
+        try:
+            src = (repo / rel).read_text()
+        except Exception as e_:
+            src = None
+            term = '{ params := [], body := [.untranslatable ' + _c01_steps.lean_str(f"cannot read {rel}: {type(e_).__name__}") + "] }"
+        if src is not None:
+            term = _c01_steps.translate(src, fn)
+        if ".untranslatable" in term:
+            untranslatable.append(name)
+        defs.append(f"/-- `{fn}` ({rel}), statement by statement -/\ndef {name} : Program :=\n  {term}\n")
+    text = (
+        "/- GENERATED by harness/props/c01.py (harness/props/_c01_steps.py) from the source text of\n"
+        "   glotaran/optimization/variable_projection.py and glotaran/optimization/nnls.py. Do not edit. -/\n"
+        "import GlotaranModel.C01Steps\n"
+        "namespace Glotaran.C01.Generated\n"
+        "open Glotaran.C01.Steps\n\n" + "\n".join(defs) + "\nend Glotaran.C01.Generated\n"
+    )
+    return text, untranslatable
+
+
+def generate_steps(ck):
+    text, untranslatable = steps_text()
+    if not LEAN_GEN_STEPS.exists() or LEAN_GEN_STEPS.read_text() != text:
+        LEAN_GEN_STEPS.parent.mkdir(parents=True, exist_ok=True)
+        LEAN_GEN_STEPS.write_text(text)
+    ck.extra["step_tables"] = {"untranslatable": untranslatable, "statements": sum(1 for l in text.splitlines() if l.startswith("      ."))}
+    return {"table": "Steps(C01): residual_variable_projection / residual_nnls as statement lists (LAPACK / scipy calls with operands "
+                     "and flags, zeroed block, normalisation steps with axis arguments, returned expressions in order)",
+            "source": ", ".join(rel for _, rel, _ in STEP_SOURCES), "sha1": hashlib.sha1(text.encode()).hexdigest()}
 
 
 # ------------------------------------------------------------------------------------------
@@ -725,10 +802,14 @@ def check_instance(ck, inst, batch, deep=True):
         qr, tau, _, info = lapack.dgeqrf(A0)
         if info == 0 and np.all(np.isfinite(qr)) and np.all(np.isfinite(tau)):
             add("vp", f"vp {pmat(qr)} {core.rats(tau)}")
+            if m <= 40:      # the program regenerated from the source text, on the same factorisation
+                add("gen:vp", f"gen-vp {pmat(qr)} {core.rats(tau)}")
         if "qr" in inst:
             add("vpx", "vp " + core.lst(core.lst(row) for row in inst["qr"]) + " " + core.lst(inst["tau"]))
+            add("gen:vpx", "gen-vp " + core.lst(core.lst(row) for row in inst["qr"]) + " " + core.lst(inst["tau"]))
     elif "vp" in inst["kernels"]:
         add("vp", "vp [] []")
+        add("gen:vp", "gen-vp [] []")
     small = (m <= 40 and n <= 5) or (m <= 120 and n <= 3)
     if small or "qr" in inst:
         add("ls", "ls")
@@ -741,8 +822,12 @@ def check_instance(ck, inst, batch, deep=True):
                 sup = [j for j in range(n) if out["clp"][j] > 0]
                 if small or len(sup) <= 4:
                     add("nnls-on", "nnls-on " + core.lst(str(j) for j in sup))
+                    if m <= 40:
+                        add("gen:nnls-on", "gen-nnls-on " + core.lst(str(j) for j in sup))
                 if (m <= 24 and n <= 4) or "qr" in inst:
                     add("nnls", "nnls")
+                    if m <= 12 and n <= 3:
+                        add("gen:nnls", "gen-nnls")
     batch.append(entry)
     return entry
 
@@ -845,6 +930,8 @@ def judge_instance(ck, e, ans):
                          impl=hx(r), exact=hx(ls_r))
     elif out is not None and out["error"] is not None and "vp" in S:
         disagree(ck, e, "vp-raises", f"implementation raised {out['error']}, the model returns a result", "vp")
+    # ---- the programs regenerated from the source text ------------------------------------------
+    judge_generated(ck, e, ans)
     # ---- exact certificates of the float outputs ---------------------------------------------
     for kernel in inst["kernels"]:
         slot = "cert:" + kernel
@@ -922,6 +1009,57 @@ def judge_instance(ck, e, ans):
             ck.count("nnls:active=%d/%d" % (int((c > 0).sum()), n))
 
 
+GEN_SLOTS = [("gen:vp", "vp", "vp"), ("gen:vpx", "vpx", "vp"), ("gen:nnls-on", "nnls-on", "nnls"), ("gen:nnls", "nnls", "nnls")]
+
+
+def judge_generated(ck, e, ans):
+    """`gen-*` lines run the interpreter of Generated/C01Steps.lean (the statements translated from the source text) on the
+    same inputs as the hand-written model.  With `generated_*_eq_model` proved the two answers are the same text; if they are
+    not, the source says something else than the model (and the theorem is broken, too): a disagreement.  The generated
+    program is also compared with the implementation's output, which cross-checks translator + interpreter."""
+    inst, A, kappa = e["inst"], e["A"], e["kappa"]
+    m, n = A.shape
+    S = e["slots"]
+    Al = A.astype(LD)
+    for gslot, mslot, kernel in GEN_SLOTS:
+        if gslot not in S or mslot not in S:
+            continue
+        g, h = ans[S[gslot]], ans[S[mslot]]
+        ck.count("generated:" + gslot.split(":")[1])
+        gt = core.parse_tree(g)
+        if len(gt) >= 2 and gt[1] == "stuck":
+            ck.count("generated:stuck")
+            disagree(ck, e, "generated-program-stuck:" + kernel, f"the interpreter has no meaning for the program regenerated from the "
+                     f"source of the {kernel} kernel: {core.dec(gt[2]) if len(gt) > 2 else '?'}", kernel)
+            continue
+        ht = core.parse_tree(h)
+        g_none = len(gt) >= 2 and gt[1] in ("raised", "none")
+        h_none = len(ht) >= 2 and ht[1] == "none"
+        same = (g_none and h_none) or (not g_none and not h_none and gt[1] == ht[1] and gt[2] == ht[2])
+        if not same:
+            disagree(ck, e, "generated-program-vs-model:" + kernel, f"the statements regenerated from the source of the {kernel} kernel "
+                     f"compute something else than the hand-written model ({gslot})", kernel, generated=g[:300], model=h[:300])
+        out = e["outs"].get(kernel)
+        if g_none or out is None or out["error"] is not None or out["clp_shape"] != (n,) or out["residual_shape"] != (m,):
+            continue
+        cg, rg, _, _ = parse_pair(gt)
+        if len(cg) != n or len(rg) != m:
+            disagree(ck, e, "generated-program-shape:" + kernel, f"regenerated program returns {len(cg)} clp / {len(rg)} residual entries, "
+                     f"implementation {n} / {m}", kernel)
+            continue
+        c, r = out["clp"], out["residual"]
+        den = l2(e["y"].astype(LD)) + l2(Al.ravel()) * l2(c)
+        tol = (LD(gamma(m, n)) * (den + LD(min(kappa, 1e12)) * l2(rg)) if kernel == "vp"
+               else LD(gamma_nnls(m, n)) * LD(max(1.0, min(kappa, 1e12))) * den)
+        dr = l2(r.astype(LD) - rg.astype(LD))
+        dc = l2(Al @ (c.astype(LD) - cg.astype(LD))) if n else LD(0)
+        track(ck, f"generated:{gslot.split(':')[1]}", max(dr, dc), tol)
+        if max(dr, dc) > tol and gslot != "gen:nnls-on":
+            # (gen:nnls-on runs on the support the implementation chose, which need not be the optimal one)
+            disagree(ck, e, "generated-program-vs-implementation:" + kernel, f"the interpreter of the regenerated {kernel} program and the "
+                     f"implementation differ: {float(max(dr, dc)):.3g} > {float(tol):.3g}", kernel, generated=g[:300])
+
+
 # ------------------------------------------------------------------------------------------
 # dispatch: table, EstimationProvider, optimize()
 # ------------------------------------------------------------------------------------------
@@ -977,6 +1115,10 @@ def dispatch_stream(ck):
         ck.oracle_evals += 1
         if out["error"]:
             ck.violation("dispatch-raises:" + out["error"], f"calculate_residual raised for key {k!r}", case)
+            continue
+        if out["clp_shape"] != (DISPATCH_A.shape[1],) or out["residual_shape"] != (DISPATCH_A.shape[0],):
+            ck.violation("dispatch-shape", f"calculate_residual for key {k!r} returns clp of shape {out['clp_shape']} and residual of shape "
+                         f"{out['residual_shape']} for a {DISPATCH_A.shape[0]}x{DISPATCH_A.shape[1]} matrix", case)
             continue
         kinds = classify_output(DISPATCH_A, DISPATCH_Y, out["clp"], out["residual"])
         want = {"variable_projection": "vp", "non_negative_least_squares": "nnls"}.get(k)
@@ -1268,6 +1410,10 @@ def run(ck):
     flush(ck, batch)
     optimize_stream(ck, batch, ck.n(12, 60))
     flush(ck, batch)
+    # --- provider glue (goal 3)
+    from harness.props import _c01_provider
+    _c01_provider.provider_stream(ck, batch, ck.n(120, 1200))
+    # --- end provider glue
     buffer_reuse_stream(ck, ck.n(25, 400))
     if not ck.quick:
         # oracle-only sweep (no Lean): many more matrices through both kernels
@@ -1294,6 +1440,11 @@ def search(ck):
         check_instance(ck, rand_instance(ck.rng, small=(i % 2 == 0)), batch, deep=False)
     if not ck.violations:
         optimize_stream(ck, [], 6)
+    # --- provider glue (goal 3)
+    if not ck.violations:
+        from harness.props import _c01_provider
+        _c01_provider.provider_stream(ck, None, ck.n(60, 400))
+    # --- end provider glue
 
 
 def replay(ck, case):
@@ -1333,6 +1484,12 @@ def replay(ck, case):
         dispatch_stream(ck)
     if "spec" in c:
         optimize_replay(ck, c["spec"])
+    # --- provider glue (goal 3)
+    for pc in [c] + [d.get("case", {}) for d in case.get("disagreements", [])]:
+        if "provider_spec" in pc:
+            from harness.props import _c01_provider
+            _c01_provider.replay_provider(ck, pc)
+    # --- end provider glue
     for d in ck.disagreements:
         print("DISAGREEMENT", d["key"], d["what"])
     for v in ck.violations:
